@@ -74,6 +74,13 @@ def corpus_cases():
             add(cls, nodes, edges, {"cover_type": "node", "k": k}, "node")
         for cls in ("MinPathCover", "MinPathCoverCycles"):
             add(cls, nodes, edges, {"cover_type": "node"}, "node")
+    # node-weighted minimum decompositions whose (possibly empty) additional starts / ends come in another container type than a list
+    tn = ["a", "b", "c"]; te = [("a", "b"), ("a", "c")]; tna = {"a": {"flow": 2}, "b": {"flow": 2}, "c": {"flow": 0}}
+    for cont in ("tuple", "set", "list"):
+        for st_, en_ in (([], ["b"]), (["a"], []), ([], []), (["b"], ["b"])):
+            for cls in ("MinFlowDecomp", "MinFlowDecompCycles"):
+                add(cls, tn, te, {"flow_attr": "flow", "flow_attr_origin": "node", "weight_type": "int", "additional_starts": {"as": cont, "items": st_}, "additional_ends": {"as": cont, "items": en_}},
+                    "node", nattr=tna, starts=st_, ends=en_)
     # nodes named like expanded / synthetic nodes
     hn = ["a", "a.0", "a.1", "source", "sink"]; he = [("a", "a.0"), ("a.0", "a.1"), ("a", "a.1"), ("a.1", "sink"), ("source", "a")]
     fl = {("a", "a.0"): 2, ("a.0", "a.1"): 2, ("a", "a.1"): 3, ("a.1", "sink"): 5, ("source", "a"): 5}
